@@ -54,7 +54,13 @@ pub enum Corr {
     ValuesLen(usize),
     ColsPlus,
     ColsMinus,
+    /// n_columns + 2^e: a column count that only agrees with the honest one modulo 2^32 / 2^64 / 2^128
+    ColsHigh(u32),
+    /// cell + 2^250: differs from the committed cell only above every digest width
+    CellHigh(usize),
     Root,
+    /// root + 2^250
+    RootHigh,
     Sibling(usize),
     RowIndex(usize, u64),
 }
@@ -70,6 +76,9 @@ impl Corr {
             Corr::ValuesLen(n) => json!({"c": "values_len", "n": n}),
             Corr::ColsPlus => json!({"c": "cols_plus"}),
             Corr::ColsMinus => json!({"c": "cols_minus"}),
+            Corr::ColsHigh(e) => json!({"c": "cols_high", "e": e}),
+            Corr::CellHigh(i) => json!({"c": "cell_high", "i": i}),
+            Corr::RootHigh => json!({"c": "root_high"}),
             Corr::Root => json!({"c": "root"}),
             Corr::Sibling(k) => json!({"c": "sibling", "k": k}),
             Corr::RowIndex(i, j) => json!({"c": "row_index", "i": i, "to": j}),
@@ -87,6 +96,9 @@ impl Corr {
             "values_len" => Corr::ValuesLen(g("n")? as usize),
             "cols_plus" => Corr::ColsPlus,
             "cols_minus" => Corr::ColsMinus,
+            "cols_high" => Corr::ColsHigh(g("e")? as u32),
+            "cell_high" => Corr::CellHigh(g("i")? as usize),
+            "root_high" => Corr::RootHigh,
             "root" => Corr::Root,
             "sibling" => Corr::Sibling(g("k")? as usize),
             "row_index" => Corr::RowIndex(g("i")? as usize, g("to")?),
@@ -104,6 +116,9 @@ impl Corr {
             Corr::ValuesLen(_) => "values_len",
             Corr::ColsPlus => "cols_plus",
             Corr::ColsMinus => "cols_minus",
+            Corr::ColsHigh(_) => "cols_high",
+            Corr::CellHigh(_) => "cell_high",
+            Corr::RootHigh => "root_high",
             Corr::Root => "root",
             Corr::Sibling(_) => "sibling",
             Corr::RowIndex(..) => "row_index",
@@ -145,6 +160,9 @@ pub fn exec(ctx: &Ctx, own: Variant, sh: &Shape, table: Option<&Table>, corr: &C
         Corr::ValuesLen(n) => values.resize(*n, Felt::from(5u64)),
         Corr::ColsPlus => n_columns += Felt::ONE,
         Corr::ColsMinus => n_columns -= Felt::ONE,
+        Corr::ColsHigh(e) => n_columns += Felt::TWO.pow(*e as u128),
+        Corr::CellHigh(i) => values[*i] += Felt::TWO.pow(250u128),
+        Corr::RootHigh => root += Felt::TWO.pow(250u128),
         Corr::Root => root += Felt::ONE,
         Corr::Sibling(k) => wit[*k] += Felt::ONE,
         Corr::RowIndex(i, j) => queries[*i] = fu(*j),
@@ -154,7 +172,8 @@ pub fn exec(ctx: &Ctx, own: Variant, sh: &Shape, table: Option<&Table>, corr: &C
 
 fn corruptions(sh: &Shape, n_wit: usize) -> Vec<Corr> {
     let n_vals = sh.cols * sh.qs.len();
-    let mut out = vec![Corr::None, Corr::Root, Corr::ValuesShort, Corr::ValuesLong, Corr::ColsPlus, Corr::ColsMinus];
+    let mut out = vec![Corr::None, Corr::Root, Corr::RootHigh, Corr::ValuesShort, Corr::ValuesLong, Corr::ColsPlus, Corr::ColsMinus,
+        Corr::ColsHigh(32), Corr::ColsHigh(64), Corr::ColsHigh(128)];
     if n_vals > 0 {
         out.push(Corr::ValuesEmpty);
     }
@@ -165,6 +184,7 @@ fn corruptions(sh: &Shape, n_wit: usize) -> Vec<Corr> {
     }
     for i in 0..n_vals {
         out.push(Corr::Cell(i));
+        out.push(Corr::CellHigh(i));
     }
     // every transposition of two cells (within a row and across queried rows); all cells
     // are pairwise distinct so each transposition changes the opened data
